@@ -89,7 +89,7 @@ def fresh_up_name(model):
 def random_edit(rng, model, kinds=None):
     """One random, well-formed edit of the abstract model (never an invalid one)."""
     kinds = kinds or ["input", "input", "input", "starts", "link", "list", "listop", "listop", "group",
-                      "add_up", "del_up", "server_type", "tz"]
+                      "add_up", "del_up", "server_type", "tz", "refused"]
     for _ in range(50):
         kind = rng.choice(kinds)
         e = _try_edit(rng, model, kind)
@@ -120,6 +120,21 @@ def _random_input_edit(rng, model):
 def _try_edit(rng, model, kind):
     if kind == "input":
         return _random_input_edit(rng, model)
+    if kind == "refused":
+        # an input value the server's capacity check refuses while the update is being recomputed
+        reach = reachable(model)
+        servers = [s for s in names_of(model, "Server") if s in reach]
+        if not servers:
+            return None
+        s = rng.choice(sorted(servers))
+        inp = model[s]["inp"]
+        res = rng.choice(["ram", "compute"])
+        base = "base_%s_consumption" % res
+        if rng.random() < 0.5 and inp[base][0] > 0:
+            e = ("input", s, res, [inp[base][0] / 2, inp[base][1]])
+        else:
+            e = ("input", s, base, [inp[res][0] * 2, inp[res][1]])
+        return ("refused", e)
     if kind == "starts":
         up = rng.choice(names_of(model, "UsagePattern"))
         n = len(model[up]["opt"]["starts"])      # a series of another length is refused by the pinned code
